@@ -122,6 +122,20 @@ def step (s : St) (fs : List String) : St × String :=
         let sp := if inRange && allNumeric pi a then some (encRules seff, specOrder pi a') else none
         ({ pol := put s.pol k l', arr := put s.arr k (if inRange then a' else l') }, answer (encRules eff) l' sp)
     | _, _, _ => (s, "bad-op")
+  | ["updatefiltered", k, news, idx, vals] =>
+    match decRules news, idx.toNat?, decStrList vals with
+    | some news, some idx, some vals =>
+      let l := get s.pol k
+      let a := get s.arr k
+      let inRange := a.all fun r => idx + vals.length ≤ r.length
+      match updateFiltered l news idx vals with
+      | .error e => (s, answer (showErr e) l none)
+      | .ok (l', b) =>
+        let (a', sb) := Spec.updateFiltered a news idx vals
+        let sp := if inRange then some (encBool sb, a') else none
+        -- past a disagreement with the specification (open finding F16) the specification follows the code
+        ({ pol := put s.pol k l', arr := put s.arr k l' }, answer (encBool b) l' sp)
+    | _, _, _ => (s, "bad-op")
   | ["update", k, pt, old, new] =>
     match optNat pt, decRule old, decRule new with
     | some pt, some o, some n =>
